@@ -5,6 +5,7 @@ import (
 	"errors"
 	"hash/maphash"
 	"io"
+	"math/big"
 	"reflect"
 	"slices"
 	"strings"
@@ -426,7 +427,18 @@ func (s unicodeString) Equals(other Value) bool {
 		return true
 	}
 
-	if o, ok := other.(*Object); ok {
+	switch o := other.(type) {
+	case valueInt, valueFloat:
+		return s.ToNumber().StrictEquals(o)
+	case valueBool:
+		return s.ToNumber().StrictEquals(o.ToNumber())
+	case *valueBigInt:
+		bigInt, err := stringToBigInt(s.toTrimmedUTF8())
+		if err != nil {
+			return false
+		}
+		return bigInt.Cmp((*big.Int)(o)) == 0
+	case *Object:
 		return s.Equals(o.toPrimitive())
 	}
 	return false
